@@ -34,8 +34,16 @@ QuoteSafe(ts) == \A i \in 1..Len(ts) : ts[i] # "'s" \/ i = Len(ts)
 ExprVerdict(ts) == IF \E i \in 1..Len(ts) : ts[i] = "'s" THEN [v |-> "reject", why |-> "err:unterminated-literal"]
                    ELSE IF \E i \in 1..Len(ts) : ts[i] = "1e5" THEN [v |-> "reject", why |-> "err:number-exponent"]
                    ELSE [v |-> Verdict(ts), why |-> Why(ts)]
-VecE(kind, ts) == LET r == ExprVerdict(ts) IN [kind |-> kind, lang |-> "expr", ts |-> ts, v |-> r.v, why |-> r.why]
-VecL(kind, ts) == [kind |-> kind, lang |-> "leafref", ts |-> ts, v |-> LeafrefVerdict(ts), why |-> ""]
+\* The prefix environment is an input of acceptance.  Environment A knows KnownPrefixes ("", p, q); environment B knows
+\* "", zz and q.  Which prefixes an environment knows enters the verdict only through membership, so the verdict of ts
+\* under B is the verdict under A of ts with the prefixes p and zz exchanged (v2).  The harness compiles every text under
+\* A, then B, then A again in one process: the verdict may depend on the environment of THIS call only.
+SwapTok(t) == IF ~IsNameTok(t) \/ ColonPos(t) = 0 THEN t
+              ELSE IF PrefixOf(t) = "p" THEN "zz" \o SubSeq(t, ColonPos(t), Len(t))
+              ELSE IF PrefixOf(t) = "zz" THEN "p" \o SubSeq(t, ColonPos(t), Len(t)) ELSE t
+SwapPfx(ts) == [i \in 1..Len(ts) |-> SwapTok(ts[i])]
+VecE(kind, ts) == LET r == ExprVerdict(ts) IN [kind |-> kind, lang |-> "expr", ts |-> ts, v |-> r.v, why |-> r.why, v2 |-> ExprVerdict(SwapPfx(ts)).v]
+VecL(kind, ts) == [kind |-> kind, lang |-> "leafref", ts |-> ts, v |-> LeafrefVerdict(ts), why |-> "", v2 |-> LeafrefVerdict(SwapPfx(ts))]
 
 LrefPool == {<<"/", "a">>, <<"/", "a", "/", "p:b">>, <<"..", "/", "a">>, <<"..", "/", "..", "/", "a", "/", "p:b">>,
              <<"/", "a", "[", "a", "=", "current", "(", ")", "/", "..", "/", "p:b", "]">>,
@@ -65,8 +73,8 @@ LrefNameSeqs == UNION {{<<"/", n>>, <<"..", "/", n>>, <<"/", n, "/", "a">>, <<".
                         <<"/", "a", "[", "k", "=", "current", "(", ")", "/", "..", "/", n, "/", "b", "]", "/", n>>} : n \in LrefNameToks}
 XmlCharAlpha == {"x", "m", "l", "X", "M", "a", ":", "/", "_"}
 XmlCharStrings(maxlen) == UNION {{"/" \o Concat(s) : s \in [1..n -> XmlCharAlpha]} : n \in 1..maxlen}
-VecLC(cs) == [kind |-> "chars", lang |-> "leafref", ts |-> <<cs>>, v |-> LeafrefCharVerdict(cs), why |-> ""]
-VecC(cs) == LET r == CharVerdict(cs) IN [kind |-> "chars", lang |-> "expr", ts |-> <<cs>>, v |-> r.v, why |-> r.why]
+VecLC(cs) == [kind |-> "chars", lang |-> "leafref", ts |-> <<cs>>, v |-> LeafrefCharVerdict(cs), why |-> "", v2 |-> ""]
+VecC(cs) == LET r == CharVerdict(cs) IN [kind |-> "chars", lang |-> "expr", ts |-> <<cs>>, v |-> r.v, why |-> r.why, v2 |-> ""]
 VARIABLES kind, first, chunk, done
 Jobs == {<<"full", i, 0>> : i \in 1..Len(FullAlpha)} \cup {<<"core", i, 0>> : i \in 1..Len(CoreAlpha)} \cup {<<"tiny", i, 0>> : i \in 1..Len(TinyAlpha)}
         \cup {<<"mutant", f, c>> : f \in MutFams, c \in 1..NChunks} \cup {<<"lref", i, 0>> : i \in 1..Len(LrefAlpha)} \cup {<<"lref", 0, 0>>}
